@@ -184,27 +184,36 @@ const closeDeadlockSig = "casBlobAccess.Get(zstd):Close-deadlocks-with-forwardin
 
 var (
 	stuckCloseRe = regexp.MustCompile(`(?s)^goroutine \d+ \[sync\.WaitGroup\.Wait[^\]]*\]:.*grpcclients\.\(\*zstdByteStreamChunkReader\)\.Close`)
-	stuckRecvRe  = regexp.MustCompile(`(?s)^goroutine \d+ \[(chan receive|select)[^\]]*\]:.*bytestream\.\(\*byteStreamReadClient\)\.Recv.*grpcclients\.\(\*casBlobAccess\)\.Get\.func1`)
+	stuckRecvRe  = regexp.MustCompile(`(?s)^goroutine \d+ \[(chan receive|select), \d+ minutes[^\]]*\]:.*bytestream\.\(\*byteStreamReadClient\)\.Recv.*grpcclients\.\(\*casBlobAccess\)\.Get\.func1`)
+	stuckDrainRe = regexp.MustCompile(`(?s)^goroutine \d+ \[(chan receive|select), \d+ minutes[^\]]*\]:.*bytestream\.\(\*byteStreamReadClient\)\.Recv.*grpcclients\.\(\*zstdByteStreamChunkReader\)\.Close`)
 )
 
 // stuckInClose reports (from a goroutine dump) whether a Close() is parked in
-// wg.Wait() while a forwarding goroutine is parked in Recv().
+// wg.Wait() while its forwarding goroutine is parked in Recv() (the drain loop
+// of Close() took the end of the stream), or whether the drain loop of Close()
+// itself is parked in Recv() (the forwarding goroutine took it). "Parked" means
+// for at least a minute (the runtime's own annotation), with the context of the
+// call already cancelled by Close(): on a loaded machine a shorter wait proves
+// nothing.
 func stuckInClose() (string, bool) {
 	buf := make([]byte, 1<<22)
 	dump := string(buf[:runtime.Stack(buf, true)])
 	var hit []string
-	closeParked, recvParked := false, false
+	closeParked, recvParked, drainParked := false, false, false
 	for _, g := range strings.Split(dump, "\n\n") {
 		switch {
 		case stuckCloseRe.MatchString(g):
 			closeParked = true
+			hit = append(hit, g)
+		case stuckDrainRe.MatchString(g):
+			drainParked = true
 			hit = append(hit, g)
 		case stuckRecvRe.MatchString(g):
 			recvParked = true
 			hit = append(hit, g)
 		}
 	}
-	return strings.Join(hit, "\n\n"), closeParked && recvParked
+	return strings.Join(hit, "\n\n"), (closeParked && recvParked) || drainParked
 }
 
 // guarded runs one client operation. The verdict is state based: the clock
@@ -235,7 +244,7 @@ func guarded(c *run.Case, w *run.Worker, what string, f func()) (stalled bool) {
 		}
 		if d, b := stuckInClose(); b {
 			w.Count("close_deadlocks_observed", 1)
-			c.Violation(closeDeadlockSig, "%s never returned: Close() waits for the forwarding goroutine, which waits in Recv() for a stream end that the drain loop of Close() has already consumed\n%s", what, d)
+			c.Violation(closeDeadlockSig, "%s never returned: Close() and its forwarding goroutine both call Recv() on one stream; the one that did not get the end of the stream waits forever\n%s", what, d)
 			return true
 		}
 	}
